@@ -172,3 +172,23 @@ Example container_show_nonvacuous :
   wf_items array_open = true /\ wf_items array_close = true
   /\ texts nat ex_render ex_show array_open (cons 9 nil) <> None /\ texts nat ex_render ex_show array_close nil <> None.
 Proof. exact FormatProofs.ex_container_bundle. Qed.
+
+(* %$ on a key/value container (Table_Show / Tree_Show: opener, "%$:%$" per entry with ", " between,
+   closer): the entries' key and value show texts once each, in iteration order *)
+Theorem map_show_is_entries_show : forall (V : Type) (render : list byte -> ckind -> V -> option (list byte)) (show : V -> list byte)
+    oi ci self elems k pos tops tcl,
+  wf_items oi = true -> wf_items ci = true ->
+  texts V render show oi (cons self nil) = Some tops -> texts V render show ci nil = Some tcl ->
+  exists st, show_map V render show (unparse oi) (unparse ci) self elems k pos = ODone st
+    /\ p_sink st = write_all k pos (tops ++ pair_texts V show elems ++ tcl)
+    /\ p_pos st = pos + length (List.concat tops
+                                ++ join SEP (List.map (fun kv => (show (fst kv) ++ COLON ++ show (snd kv))%list) elems)
+                                ++ List.concat tcl).
+Proof. exact FormatProofs.show_map_spec. Qed.
+Print Assumptions map_show_is_entries_show.
+
+Example map_show_nonvacuous :
+  wf_items table_open = true /\ wf_items table_close = true
+  /\ texts nat ex_render ex_show table_open (cons 9 nil) <> None /\ texts nat ex_render ex_show table_close nil <> None.
+Proof. exact (conj (proj1 FormatProofs.ex_table_bundle) (conj (proj1 (proj2 FormatProofs.ex_table_bundle))
+        (conj (proj1 (proj2 (proj2 FormatProofs.ex_table_bundle))) (proj1 (proj2 (proj2 (proj2 FormatProofs.ex_table_bundle))))))). Qed.
